@@ -121,7 +121,12 @@ class Server(object):
     def _close(self, app):
         app.closed_by_script = True
         self.sim.log('srv-close', app.conn.index)
-        app.conn.server_close()
+        if app.beh.get('close_mode') == 'rst':
+            # an abortive close (SO_LINGER 0 / unread input at the server)
+            self.sim.stat('fault.rst')
+            app.conn.server_rst()
+        else:
+            app.conn.server_close()
 
     # ------------------------------------------------------------ events
     def on_accept(self, conn):
@@ -271,6 +276,8 @@ class Server(object):
             app.login_name = name
             self._run_login(app)
             return
+        if app.waiting == 'hold':
+            return
         if pid == ids['sb.login.encryption_response'] and \
                 app.waiting == 'enc':
             self._on_enc_response(app, body)
@@ -379,6 +386,18 @@ class Server(object):
             elif op == 'wait_plugins':
                 if self._plugins_pending(app):
                     app.waiting = 'plugins'
+            elif op == 'pause':
+                app.waiting = 'pause'
+
+                def resume(app=app):
+                    if app.waiting == 'pause' and app.state == 'login':
+                        app.waiting = None
+                        self._run_login(app)
+                self.sim.after(step[1], resume, 'srv-pause')
+                return
+            elif op == 'hold':
+                # say nothing more; whatever arrives is only recorded
+                app.waiting = 'hold'
             elif op == 'success':
                 uid = app.beh.get('uuid_hex', '00112233445566778899aabbccddeeff')
                 name = app.login_name or ''
